@@ -349,3 +349,9 @@ def _m_pernode_delay(job, rec, k):
         if any(n == node and v != first_val for n, v in grp):
             return True
     return False
+
+
+@matcher('heun-advances-ring-buffers-twice')
+def _m_heun_ring(job, rec, k):
+    """run-level obligation of C09: only the Heun kernel, only the buffer-advance obligation"""
+    return rec.get('kind') == 'ring-buffer-run' and job.get('solver') == 'heun' and rec.get('solver') == 'heun'
